@@ -128,6 +128,12 @@ PROPERTIES = {
 }
 
 
+for _pid, _P in PROPERTIES.items():
+    _P.setdefault("bounded", [])
+    if not any(b["name"] == "scenarios" for b in _P["bounded"]):
+        _P["bounded"].append({"name": "scenarios", "quick": True})
+
+
 # ---------------------------------------------------------------------------
 def run_lemma(lem, eng, timeout):
     import lemmas
